@@ -36,6 +36,16 @@ atomic_valence[35] = [1]
 atomic_valence[53] = [1]
 atomic_valence[78] = [2, 4]
 
+# valences of the neutral closed-shell atom; elements that are not listed
+# are neutral in all of their valences from ``atomic_valence``
+neutral_atomic_valence: dict[int, list[int]] = {
+    5: [3],
+    7: [3],
+    8: [2],
+    15: [5, 3],
+    16: [6, 2],
+}
+
 atomic_valence_electrons: dict[int, int] = {}
 atomic_valence_electrons[1] = 1
 atomic_valence_electrons[5] = 3
@@ -158,6 +168,20 @@ def _AC2BO(AC: np.ndarray[tuple[N, N], np.dtype[np.int8]],
 
     # convert [[4],[2,1]] to [[4,2],[4,1]]
     valences_list = itertools.product(*valences_list_of_lists)
+
+    if not allow_charged_fragments:
+        # without charged fragments every valence that belongs to a charged
+        # atom (N 4, O 1/3, S 3, ...) ends up as a radical, so assignments
+        # that give every atom its neutral valence are tried first
+        neutral_valences = [
+            [v for v in vals
+             if v in neutral_atomic_valence.get(atomic_num, vals)]
+            for atomic_num, vals in zip(atom_nrs, valences_list_of_lists)
+        ]
+        if all(neutral_valences):
+            valences_list = itertools.chain(
+                itertools.product(*neutral_valences), valences_list
+            )
 
     best_BO = AC.copy()
 
